@@ -9,7 +9,7 @@ package graph
 //@ func EdgeSlice.Populate
 //@   requires g != nil
 //@   requires forall i int :: 0 <= i && i < len(edges) ==> len(edges[i]) == 2
-//@   modifies graph.DGraph.Nodes, graph.DGraph.Edges, graph.Node.*, graph.Edge.*, Elems[*graph.Node], map[string]*graph.Node, alloc
+//@   modifies graph.DGraph.Nodes, graph.DGraph.Edges, graph.Node.*, graph.Edge.*, Elems[*graph.Node], Elems[*graph.Edge], map[string]*graph.Node, alloc
 //@   ensures[edges] len(g.Edges) == len(edges) && (forall i int :: 0 <= i && i < len(edges) ==>
 //@       g.Edges[i] != nil && g.Edges[i].From != nil && g.Edges[i].To != nil
 //@       && g.Edges[i].From.ID == edges[i][0] && g.Edges[i].To.ID == edges[i][1] && !g.Edges[i].IsReversed)
